@@ -422,6 +422,7 @@ func c09Expressions(r *core.Run) {
 		{{Kind: "reg", Route: "/d/{x}", API: "Get"}},
 		{{Kind: "reg", Route: "/e/?{x}", API: "Routes(GET,POST)"}, {Kind: "reg", Route: "/{m: **}", API: "Any"}},
 		{{Kind: "reg", Route: "/?r", API: "Get"}},
+		{{Kind: "reg", Route: "/d/{x: /(v|w)+/}", API: "Get"}, {Kind: "reg", Route: "/d/{y}", API: "Get"}},
 	}
 	var hdrs []map[string]string
 	hdrs = append(hdrs, map[string]string{}, map[string]string{"Y-K": "v"})
@@ -475,6 +476,11 @@ var c09Prefixes = [][]c09Op{
 	{{Kind: "reg", Route: "/s", API: "Get"}, {Kind: "reg", Route: "/d/{x}", API: "Get"}},
 	{{Kind: "reg", Route: "/o/?t", API: "Get"}, {Kind: "reg", Route: "/{m: **}", API: "Any"}},
 	{{Kind: "reg", Route: "/o/t", API: "Routes(GET;POST)"}, {Kind: "reg", Route: "/o/?{y}", API: "Get"}},
+	// last segments of every regex shape (an expression with groups of its own, several binds in one segment)
+	// above a placeholder that takes what they must not
+	{{Kind: "reg", Route: "/d/{x: /(v|w)+/}", API: "Get"}, {Kind: "reg", Route: "/d/{y}", API: "Get"}},
+	{{Kind: "reg", Route: "/e/?{x: /(v)|(w)/}", API: "Routes(GET,POST)"}, {Kind: "reg", Route: "/{m: **}", API: "Any"}},
+	{{Kind: "reg", Route: "/d/{x: /[vw]/}{z: /(x)?/}", API: "Get"}, {Kind: "reg", Route: "/d/{y}", API: "Any"}},
 	// a route whose only segment is optional (its short form is the root), alone and above a catch-all
 	{{Kind: "reg", Route: "/?r", API: "Get"}},
 	{{Kind: "reg", Route: "/?{x}", API: "Routes(GET,POST)"}, {Kind: "reg", Route: "/{m: **}", API: "Any"}},
@@ -485,7 +491,7 @@ var c09Prefixes = [][]c09Op{
 // c09Respecify: "specifying constraints again replaces the previous set" over longer histories than the
 // BFS reaches: on each prefix, EVERY sequence of up to k Headers(i,set) operations, then the whole probe set.
 func c09Respecify(r *core.Run) {
-	kOne, kTwo := 3, 3
+	kOne, kTwo := 3, 2
 	if r.Thorough() {
 		kOne, kTwo = 5, 4
 	}
